@@ -800,7 +800,7 @@ pub fn c04(ctx: &mut Ctx) -> String {
             if i < 1 && which == 0 {
                 sample_case(ctx, &t, fam, &cfg);
             }
-            let case = if which == 0 && i % 4 == 0 && t.size() <= 120 {
+            let case = if which == 0 && i % 4 <= 1 && t.size() <= 120 {
                 solve_case(&t, &cfg, &["sampled_rate", "corr"])
             } else {
                 solve_case(&t, &cfg, &["sampled_rate"])
@@ -827,6 +827,28 @@ pub fn c04(ctx: &mut Ctx) -> String {
         ctx.stat("family_lottery");
         case_solve(ctx, &solve_case(&t, &cfg, &["sampled_rate"]));
         // and the same draws through the model the pathwise theorems are about (short budget)
+        let cfg = Cfg { iters: 25, ..cfg };
+        case_solve(ctx, &solve_case(&t, &cfg, &["corr"]));
+    }
+    // repeated matrix games: a player's sampled tree is wide at every level, so with several
+    // threads the per-pass frontier is really handed to the pool (`Game::solve` picks the task
+    // target itself: three per thread)
+    for i in 0..(if ctx.thorough { 60u64 } else { 12 }) {
+        if ctx.out_of_time() {
+            break;
+        }
+        let (ra, rr) = [(3u32, 2u32), (4, 2), (2, 3), (3, 2)][((i / 4) % 4) as usize];
+        let t = repeated_matrix(&mut ctx.rng, ra, rr);
+        if t.size() > 400 {
+            continue;
+        }
+        let method = if i % 4 == 3 { "S" } else { "E" };
+        let (_, params) = Params::presets()[((i / 2) % 5) as usize];
+        let seed = ctx.rng.next() >> 12;
+        let threads = [2usize, 3, 4, 2][(i % 4) as usize];
+        let cfg = Cfg { method: method.into(), params, iters: t_hi, thr: 0.0, threads, target: None, seed };
+        ctx.stat("family_repeated_matrix");
+        case_solve(ctx, &solve_case(&t, &cfg, &["sampled_rate"]));
         let cfg = Cfg { iters: 25, ..cfg };
         case_solve(ctx, &solve_case(&t, &cfg, &["corr"]));
     }
